@@ -133,6 +133,14 @@ pub struct OpApplier<'a> {
     pub keys: Vec<Vec<u8>>,
     pub dir: PathBuf,
     pub kv: Option<Bitcask>,
+    /// number of threads of the process while no store of this applier is open
+    pub base_threads: usize,
+}
+
+impl<'a> Drop for OpApplier<'a> {
+    fn drop(&mut self) {
+        self.close();
+    }
 }
 
 impl<'a> OpApplier<'a> {
@@ -142,13 +150,21 @@ impl<'a> OpApplier<'a> {
             keys: hist.keys.iter().map(key_bytes).collect(),
             dir: dir.to_path_buf(),
             kv: None,
+            base_threads: crate::store::thread_count(),
         }
     }
 
     pub fn open(&mut self) -> Result<(), String> {
-        self.kv = None;
+        self.close();
         self.kv = Some(open_caught(&self.hist.cfg, &self.dir)?);
         Ok(())
+    }
+
+    /// Drop the store and wait until its background worker is gone.
+    pub fn close(&mut self) {
+        if self.kv.take().is_some() {
+            crate::store::wait_bg_exit(self.base_threads);
+        }
     }
 
     /// Apply an op to the store; never panics.
@@ -183,7 +199,6 @@ impl<'a> OpApplier<'a> {
             Op::Merge => catch(move || h.verif_merge().map(|_| OpRes::Ok).map_err(|e| e.to_string())),
             Op::Reopen => {
                 drop(h);
-                self.kv = None;
                 return match self.open() {
                     Ok(()) => OpRes::Ok,
                     Err(e) => OpRes::Err(e),
@@ -276,7 +291,7 @@ pub fn run_recorded_in(hist: &Hist, scratch: &Path, name: &str, with_fsync: bool
             }
         }
     }
-    ap.kv = None;
+    ap.close();
     let log = shim::record_stop();
     let calls = mutating_calls(&log, name, with_fsync);
     let nops = hist.ops.len();
